@@ -252,7 +252,12 @@ class Impl(object):
             m.add_equation(self.eqobjs[op[1]], check_duplicates=bool(op[2]))
             return ['ok']
         if k == 'rmeq':
-            m.remove_equation(self.eqobjs[op[1]])
+            eq = self.eqobjs[op[1]]
+            if (op[1] + len(m.equations)) % 2:
+                # an equal but distinct Eq object names the same equation (list.remove and the definition maps must agree)
+                import sympy
+                eq = sympy.Eq(eq.lhs, eq.rhs, evaluate=False)
+            m.remove_equation(eq)
             return ['ok']
         if k == 'addcmeta':
             m.add_cmeta_id(self.objs[op[1]])
